@@ -119,7 +119,7 @@ def ref_list(src):
     s = src.decode('latin1')
     events = []
     for cm in re.finditer(r'/\*.*?\*/|//[^\n]*', s, re.S):
-        for tm in re.finditer(r'<block(?: name="(\w+)")?(?:\s+a="1")?>|</\s*block\s*>', cm.group(0)):
+        for tm in re.finditer(r'<block(?: name="(\w+)")?(?:\s+a="1")?(?:\s+bb="22")?>|</\s*block\s*>', cm.group(0)):
             off = cm.start() + tm.start()
             events.append((off, None if tm.group(0).startswith('</') else (tm.group(1) or '(unnamed)')))
     stack, out = [], []
@@ -176,7 +176,7 @@ def confirm_norm(binary, v, idx):
 
 
 BOUNDS = {
-    'quick': dict(max_comments=3, tmpls=['S', 'E', 'SE', 'nS', 'ES', 'Snt', 'nE', 'SS', 'EE', 'tntnS', 'SntnS', 'uS', 'MS', 'MnS'], sample=340, lmax=6, validate=20),
+    'quick': dict(max_comments=3, tmpls=['S', 'E', 'SE', 'nS', 'ES', 'Snt', 'nE', 'SS', 'EE', 'tntnS', 'SntnS', 'uS', 'MS', 'MnS', 'L', 'LS'], sample=340, lmax=6, validate=20),
     'thorough': dict(max_comments=4, tmpls=list(TEMPLATES.keys()), sample=3000, lmax=8, validate=80),
 }
 
